@@ -124,6 +124,7 @@ pub fn main_clip(args: &[String]) -> i32 {
                 let cj = c["cand"]["j"].as_u64().unwrap() as usize;
                 let cs = sh(&c["cand"]["s"]);
                 let mut reference: Option<(BTreeSet<[usize; 3]>, f64)> = None;
+                let mut ref_panicked = false;
                 let nperm = if ei == 0 { perms } else { perms / 3 + 1 };
                 for k in 0..nperm {
                     let mut vs = verts.clone();
@@ -152,6 +153,13 @@ pub fn main_clip(args: &[String]) -> i32 {
                             // and tie-free clips are binding here.
                             if ties == 0 || (ei == 0 && exact_snap) {
                                 failures.push(describe("clip panicked for some storage order", json!({"message": msg, "variant": k})));
+                            } else if k == 0 {
+                                ref_panicked = true;
+                            } else if !ref_panicked {
+                                // ... but whatever the code decides about the tied vertices, it decides it per vertex from positions,
+                                // planes and generators (the exact predicate is invariant under rotations of a triple): every
+                                // storage order arrives at the same removed set, so either all of them can be clipped or none
+                                failures.push(describe("clip panics for some storage orders of the cell and not for others", json!({"message": msg, "variant": k})));
                             }
                         }
                         Ok(cellr) => {
@@ -162,11 +170,15 @@ pub fn main_clip(args: &[String]) -> i32 {
                             if (ties == 0 || (ei == 0 && exact_snap)) && ts != expect {
                                 failures.push(describe("vertex triples after the clip differ from the specification", json!({"variant": k, "got": ts, "expected": expect})));
                             }
+                            if ref_panicked {
+                                failures.push(describe("clip panics for some storage orders of the cell and not for others", json!({"variant": k, "reference": "panicked"})));
+                            }
                             match &reference {
                                 None => reference = Some((ts, vol)),
                                 Some((t0, v0)) => {
                                     let tolv = 1e-9 * emb.scale(&inp).powi(inp.dim as i32).max(1e-300) + 1e-12 * v0.abs();
-                                    if (ties == 0 || (ei == 0 && exact_snap)) && (*t0 != ts || (vol - v0).abs() > tolv) {
+                                    // (binding also when ties are decided on snapped coordinates: the decisions do not depend on the storage order)
+                                    if *t0 != ts || (vol - v0).abs() > tolv {
                                         failures.push(describe("different storage orders give different polytopes", json!({"variant": k, "vol": vol, "vol0": v0})));
                                     }
                                 }
